@@ -16,7 +16,8 @@ EXPLANATION = ('(1) The real pyparsing combinators, the repository\'s grammar ob
                'scratch sets), with the grammar replaced by a nondeterministic stub that fires the real parse actions with symbolic choices and then '
                'succeeds or fails: afterwards the scratch sets are empty again, the result carries exactly this call\'s names (not aliased with parser '
                'storage), and the cache gains exactly the space-stripped key on success - which covers histories of any length. (3) All call sequences '
-               'up to the bound on the shared PARSER equal a fresh parser\'s outcome.')
+               'up to the bound on the shared PARSER equal a fresh parser\'s outcome.'
+               ' Histories containing full grader calls (evaluation plus every post-evaluation validator) and a string nested beyond the recursion limit.')
 ASSUMPTIONS = ['the invariant of the inductive step: scratch sets are empty between calls; cache maps space-free strings to results',
                'lone surrogates excluded from the alphabet']
 BOUNDS = {'quick': 'all Unicode strings of length <= 4 (exact names); inductive step with <= 2 fired actions over 5 names; all sequences of <= 3 calls over 12 strings',
